@@ -7,6 +7,7 @@ use crate::engine::Engine;
 /// [a0 AND a1 AND ...] OR
 /// [b0 AND b1 AND ...] OR ...
 use crate::goal::{AnyGoal, Goal};
+use crate::operator::conda::commit;
 use crate::operator::conj::Conj;
 use crate::operator::OperatorParam;
 use crate::solver::{Solve, Solver};
@@ -58,13 +59,9 @@ where
     E: Engine<U>,
 {
     fn solve(&self, solver: &Solver<U, E>, state: State<U, E>) -> Stream<U, E> {
-        let mut stream = solver.start(&self.first, state.clone());
-
-        // Take only first item from the stream of first goal by truncating the stream
-        match solver.trunc(&mut stream) {
-            Some(_) => Stream::bind(stream, self.rest.clone()),
-            None => solver.start(&self.next, state),
-        }
+        let stream = solver.start(&self.first, state.clone());
+        // Take only first item from the stream of first goal
+        commit(solver, stream, self.rest.clone(), self.next.clone(), state, true)
     }
 }
 
